@@ -3,14 +3,20 @@
    language, evaluated by TMQuery!Matches (tabulated once).                         *)
 EXTENDS TMPubSubSM, TMQuery
 
-\* q1 errors on e2 (tx.height = "abc": the S5 trigger), q2 is a plain string match,
-\* q3 matches everything that has a tm.event
+\* q1 errors on e2 (tx.height = "abc": the S5 trigger).  q2 and q3 are NEAR-DUPLICATES: they
+\* differ only in the white space inside the quoted operand (one blank / two blanks), are
+\* different queries of the language (a quoted value is compared exactly) and are told
+\* apart by e1 / e2.  A server that identifies subscriptions by anything coarser than the
+\* exact query text serves one of them with the other's query.
 MCQueries == << <<Cond("tx.height", ">", "int", "5")>>,
-                <<Cond("tm.event", "=", "str", "Tx")>>,
-                <<Cond("tm.event", "EXISTS", "none", "")>> >>
-MCEvents == << << [k |-> "tm.event", v |-> <<"Tx">>], [k |-> "tx.height", v |-> <<"7">>] >>,
-               << [k |-> "tm.event", v |-> <<"Tx">>], [k |-> "tx.height", v |-> <<"abc">>] >>,
+                <<Cond("a.s", "=", "str", "x y")>>,
+                <<Cond("a.s", "=", "str", "x  y")>> >>
+MCEvents == << << [k |-> "tm.event", v |-> <<"Tx">>], [k |-> "tx.height", v |-> <<"7">>], [k |-> "a.s", v |-> <<"x y">>] >>,
+               << [k |-> "tm.event", v |-> <<"Tx">>], [k |-> "tx.height", v |-> <<"abc">>], [k |-> "a.s", v |-> <<"x  y">>] >>,
                << [k |-> "tm.event", v |-> <<"NewBlock">>] >> >>
+ASSUME Matches(MCQueries[2], MCEvents[1]) = "TRUE" /\ Matches(MCQueries[2], MCEvents[2]) = "FALSE"
+ASSUME Matches(MCQueries[3], MCEvents[1]) = "FALSE" /\ Matches(MCQueries[3], MCEvents[2]) = "TRUE"
+ASSUME Matches(MCQueries[1], MCEvents[2]) = "ERR"
 EvalTab == [q \in 1..Len(MCQueries) |-> [e \in 1..Len(MCEvents) |-> Matches(MCQueries[q], MCEvents[e])]]
 MCEval(q, e) == EvalTab[q][e]
 MCClients == {"c1", "c2"}
